@@ -333,6 +333,8 @@ pub fn x86_follow(mem: &dyn Mem, start: u64, stop: &[u64], max_insns: usize) -> 
     let mut pc = start;
     let mut rax: Option<u64> = None;
     let mut first = true;
+    // values pushed by the sequence itself (push imm32 [; mov dword [rsp+4], imm32]; ret)
+    let mut pushed: Vec<u64> = vec![];
     for _ in 0..max_insns {
         if !first && stop.contains(&pc) {
             o.end = X86End::Arrived { at: pc };
@@ -403,6 +405,27 @@ pub fn x86_follow(mem: &dyn Mem, start: u64, stop: &[u64], max_insns: usize) -> 
             rax = Some(0);
             o.rax_written = true;
             pc = pc.wrapping_add(2);
+        } else if b0 == 0x68 {
+            // push imm32 (sign-extended to 64 bits)
+            let v = mem.rd32(pc.wrapping_add(1)) as i32 as i64 as u64;
+            o.trace.push(format!("{pc:#x}: push {v:#x}"));
+            o.insns.push((pc, 5));
+            pushed.push(v);
+            pc = pc.wrapping_add(5);
+        } else if b0 == 0xC7 && b1 == 0x44 && b2 == 0x24 && mem.byte(pc.wrapping_add(3)) == 0x04 && !pushed.is_empty() {
+            // mov dword ptr [rsp+4], imm32 : upper half of the value just pushed
+            let hi = mem.rd32(pc.wrapping_add(4)) as u64;
+            let top = pushed.last_mut().unwrap();
+            *top = (*top & 0xFFFF_FFFF) | (hi << 32);
+            o.trace.push(format!("{pc:#x}: mov dword ptr [rsp+4], {hi:#x}"));
+            o.insns.push((pc, 8));
+            pc = pc.wrapping_add(8);
+        } else if b0 == 0xC3 && !pushed.is_empty() {
+            let dst = pushed.pop().unwrap();
+            o.trace.push(format!("{pc:#x}: ret ; to pushed {dst:#x}"));
+            o.insns.push((pc, 1));
+            o.hops.push(dst);
+            pc = dst;
         } else if b0 == 0xC3 {
             o.trace.push(format!("{pc:#x}: ret"));
             o.insns.push((pc, 1));
